@@ -30,3 +30,5 @@ def run(ctx: Ctx) -> None:
     ctx.do(D.rule_ts_flush)
     ctx.do(D.rule_dom_valid)
     ctx.do(C.rule_cfg_fwd)
+    from kfv.rules import dist_rules as _DR
+    ctx.do(_DR.rule_contig)
